@@ -87,10 +87,27 @@ func ruleT1(c *Ctx) {
 	for _, mn := range []string{"Set", "Clear", "IsSet"} {
 		f := m.method(pkgAPI, "EventMask", mn)
 		var shl *ssa.BinOp
-		for _, b := range f.Blocks {
-			for _, in := range b.Instrs {
-				if bo, ok := in.(*ssa.BinOp); ok && bo.Op == token.SHL {
-					shl = bo
+		findShl := func(g *ssa.Function) *ssa.BinOp {
+			var out *ssa.BinOp
+			for _, b := range g.Blocks {
+				for _, in := range b.Instrs {
+					if bo, ok := in.(*ssa.BinOp); ok && bo.Op == token.SHL {
+						out = bo
+					}
+				}
+			}
+			return out
+		}
+		shl = findShl(f)
+		if shl == nil {
+			// the bit expression in a shared helper of the package: bit(e) = 1 << (e-1)
+			for _, ci := range calls(f) {
+				if g := m.callee(ci.Common()); g != nil && g.Pkg != nil && g.Pkg.Pkg.Path() == pkgAPI && len(g.Params) == 1 && len(g.Blocks) == 1 && len(ci.Common().Args) == 1 {
+					if s2 := findShl(g); s2 != nil {
+						if ret, ok := g.Blocks[0].Instrs[len(g.Blocks[0].Instrs)-1].(*ssa.Return); ok && len(ret.Results) == 1 && ret.Results[0] == ssa.Value(s2) {
+							shl = s2
+						}
+					}
 				}
 			}
 		}
